@@ -1,5 +1,6 @@
 #pragma once
 
+#include <limits.h>
 #include <frg/macros.hpp>
 #include <frg/expected.hpp>
 #include <frg/formatting.hpp>
@@ -149,6 +150,12 @@ frg::expected<format_error> printf_format(A agent, const char *s, va_struct *vsp
 			++s;
 			FRG_ASSERT(*s);
 			opts.minimum_width = pop_arg<int>(vsp, &opts);
+			// A negative width is a '-' flag followed by a positive width.
+			if(opts.minimum_width < 0) {
+				FRG_ASSERT(opts.minimum_width != INT_MIN);
+				opts.left_justify = true;
+				opts.minimum_width = -opts.minimum_width;
+			}
 		}else{
 			int w = 0;
 			while(*s >= '0' && *s <= '9') {
@@ -168,7 +175,10 @@ frg::expected<format_error> printf_format(A agent, const char *s, va_struct *vsp
 			if(*s == '*') {
 				++s;
 				FRG_ASSERT(*s);
-				opts.precision = pop_arg<int>(vsp, &opts);
+				// A negative precision is taken as if the precision were omitted.
+				auto precision = pop_arg<int>(vsp, &opts);
+				if(precision >= 0)
+					opts.precision = precision;
 			}else{
 				int value = 0;
 				// If no integer follows the '.', then precision is taken to be zero
